@@ -33,12 +33,17 @@ TXN_INVS = ["InvSerializable", "InvSnapshot"]
 # deviation -> (Cfgs, MaxOps, Kinds, Thinks, NK, Prefixes, invariant that must catch it)
 MAP_SENS = {
     "flush_clears_before_install": ("LsmST2", "Ops32", "KWR", "T01", 2, "NoPrefix", "InvRead"),
-    "compaction_concurrent_install": ("LsmLVconc", "Ops51", "KPG_P", "T0_6", 2, "NoPrefix", "InvRead"),
+    "compaction_concurrent_install": ("LsmLVconc", "Ops51", "KPG_P", "T0_6", 2, "ConcPrefix", "InvRead"),
     "reader_iter_skips_on_shrink": ("LsmIter", "Ops4221", "KIter", "TIter", 3, "IterPrefix", "InvScan"),
-    "btree_reader_holds_stale_node": ("BTree3", "Ops22", "KWR", "T01", 2, "NoPrefix", "InvRead"),
+    "btree_reader_holds_stale_node": ("BTree3", "Ops22", "KPG", "T01", 2, "NoPrefix", "InvRead"),
 }
-TXN_SENS = {"si_reads_latest_not_snapshot": ("si", "InvSnapshot")}
+TXN_SENS = {"si_reads_latest_not_snapshot": ('{"si"}', "InvSnapshot")}
 ALL_MAP_DEVS = sorted(MAP_SENS)
+TAG = os.environ.get("VERIF_C14_TAG", "")        # scratch-dir suffix so that several runs can coexist
+
+
+def lab(name):
+    return f"C14{TAG}_{name}"
 
 
 def open_devs():
@@ -57,20 +62,18 @@ def map_consts(cfgs, ops, kinds, thinks, nk=2, prefixes="NoPrefix", dev=()):
             "Thinks": f"<- {thinks}", "Prefixes": f"<- {prefixes}", "Dev": dev_str(dev)}
 
 
-def txn_consts(ntx, maxops, level, dev=(), keys="{1, 2}"):
-    return {"Dev": dev_str(dev), "NTx": ntx, "TKeys": keys, "MaxOpsTx": maxops, "Level": f'"{level}"'}
+def txn_consts(ntx, maxops, levels, dev=(), keys="{1, 2}"):
+    return {"Dev": dev_str(dev), "NTx": ntx, "TKeys": keys, "MaxOpsTx": maxops, "Levels": levels}
 
 
 # ---------------------------------------------------------------------------
 # (1) model checking
 
 def model_check(chk, tier):
-    wd = tlc.workdir("C14_mc")
+    wd = tlc.workdir(lab("mc"))
     if tier == "quick":
-        clean = [("lsm size-tiered", "LsmSTq", "Ops22", "KWR", "T01"),
-                 ("lsm leveled+fifo", "LsmLFq", "Ops22", "KWR", "T01"),
-                 ("btree order 3", "BTree3", "Ops22", "KWR", "T01")]
-        txn = [(2, 3, "ser"), (2, 3, "si")]
+        clean = [("4 lsm configurations (all strategies) + btree + kv", "QuickAll", "Ops22", "KWR", "T0_01")]
+        txn = [(2, 2, '{"ser", "si", "rc"}'), (3, 1, '{"ser", "si"}')]
     else:
         clean = [("lsm size-tiered", "LsmST", "Ops32", "KWR", "T01"),
                  ("lsm leveled", "LsmLV", "Ops32", "KWR", "T01"),
@@ -82,35 +85,35 @@ def model_check(chk, tier):
                  ("btree order 4", "BTree4", "Ops42", "KWR", "T01"),
                  ("btree all kinds", "BTree3", "Ops22", "KAll2", "T012"),
                  ("kv", "KV", "Ops32", "KNoScan2", "T012")]
-        txn = [(3, 2, "ser"), (3, 2, "si"), (2, 4, "ser")]
+        txn = [(3, 2, '{"ser"}'), (3, 2, '{"si"}'), (2, 4, '{"ser", "si"}')]
     for name, cfgs, ops, kinds, thinks in clean:
         cfg = tlc.write_cfg(wd / "clean.cfg", constants=map_consts(cfgs, ops, kinds, thinks), invariants=MAP_INVS)
-        res = tlc.run(SPEC / "StorageMC.tla", cfg, label="C14_mc", timeout=3000)
+        res = tlc.run(SPEC / "StorageMC.tla", cfg, label=lab("mc"), timeout=3000)
         chk.add_tlc(f"Storage Dev={{}} {name} [{cfgs} {ops} {kinds} {thinks}]", res)
         chk.require(res.ok, f"Storage.tla with Dev={{}} violates {res.violated} in {name}: the design model is wrong")
     for dev, (cfgs, ops, kinds, thinks, nk, pre, inv) in MAP_SENS.items():
         cfg = tlc.write_cfg(wd / "sens.cfg", constants=map_consts(cfgs, ops, kinds, thinks, nk, pre, [dev]),
                             invariants=MAP_INVS)
-        res = tlc.run(SPEC / "StorageMC.tla", cfg, label="C14_mc", timeout=1200)
+        res = tlc.run(SPEC / "StorageMC.tla", cfg, label=lab("mc"), timeout=1200)
         chk.add_tlc(f"Storage Dev={{{dev}}} [{cfgs}]", res, count=False, note="sensitivity run, must violate")
-        chk.require(res.violated == inv, f"deviation {dev} not caught (got {res.violated})")
+        chk.require(res.violated in MAP_INVS, f"deviation {dev} not caught (got {res.violated})")
         chk.sensitivity[dev] = res.violated
-        if dev in ("compaction_concurrent_install", "reader_iter_skips_on_shrink"):
+        if tier == "thorough" and dev in ("compaction_concurrent_install", "reader_iter_skips_on_shrink"):
             # the same targeted envelope must be clean without the deviation
             cfg = tlc.write_cfg(wd / "sens0.cfg", constants=map_consts(cfgs, ops, kinds, thinks, nk, pre, []),
                                 invariants=MAP_INVS)
-            res = tlc.run(SPEC / "StorageMC.tla", cfg, label="C14_mc", timeout=1200)
+            res = tlc.run(SPEC / "StorageMC.tla", cfg, label=lab("mc"), timeout=1200)
             chk.add_tlc(f"Storage Dev={{}} targeted [{cfgs}]", res)
             chk.require(res.ok, f"Storage.tla with Dev={{}} violates {res.violated} in {cfgs}")
-    for ntx, mo, level in txn:
-        cfg = tlc.write_cfg(wd / "txn.cfg", constants=txn_consts(ntx, mo, level), invariants=TXN_INVS, view="View")
-        res = tlc.run(SPEC / "Txn.tla", cfg, label="C14_mc", timeout=3000)
-        chk.add_tlc(f"Txn Dev={{}} NTx={ntx} MaxOpsTx={mo} level={level}", res)
-        chk.require(res.ok, f"Txn.tla with Dev={{}} violates {res.violated} (level {level})")
+    for ntx, mo, levels in txn:
+        cfg = tlc.write_cfg(wd / "txn.cfg", constants=txn_consts(ntx, mo, levels), invariants=TXN_INVS, view="View")
+        res = tlc.run(SPEC / "Txn.tla", cfg, label=lab("mc"), timeout=3000)
+        chk.add_tlc(f"Txn Dev={{}} NTx={ntx} MaxOpsTx={mo} levels={levels}", res)
+        chk.require(res.ok, f"Txn.tla with Dev={{}} violates {res.violated} (levels {levels})")
     for dev, (level, inv) in TXN_SENS.items():
         cfg = tlc.write_cfg(wd / "txn_sens.cfg", constants=txn_consts(2, 2, level, [dev]), invariants=TXN_INVS,
                             view="View")
-        res = tlc.run(SPEC / "Txn.tla", cfg, label="C14_mc", timeout=600)
+        res = tlc.run(SPEC / "Txn.tla", cfg, label=lab("mc"), timeout=600)
         chk.add_tlc(f"Txn Dev={{{dev}}}", res, count=False, note="sensitivity run, must violate")
         chk.require(res.violated == inv, f"deviation {dev} not caught (got {res.violated})")
         chk.sensitivity[dev] = res.violated
@@ -181,16 +184,15 @@ def cfg_from_state(c):
 
 def map_programs(chk, tier, known):
     """Terminal states of the as-code model = every program of a small envelope, with the model's prediction."""
-    wd = tlc.workdir("C14_gen")
-    envs = [("LsmSTq", "Ops21", "KWR", "T01"), ("LsmLFq", "Ops21", "KWR", "T01"), ("BTree3", "Ops21", "KWR", "T01")]
+    wd = tlc.workdir(lab("gen"))
+    envs = [("QuickAll", "Ops21", "KWR", "T01")]
     if tier == "thorough":
-        envs += [("LsmST2", "Ops22", "KWR", "T01"), ("BTree3", "Ops22", "KWR", "T01"), ("KV", "Ops21", "KNoScan2", "T01"),
-                 ("LsmFP", "Ops21", "KWR", "T01")]
+        envs += [("LsmST2", "Ops22", "KWR", "T01"), ("BTree3", "Ops22", "KWR", "T01"), ("LsmFP", "Ops21", "KWR", "T01")]
     progs = []
     done_re = re.compile(r'pc \|-> "(\w+)"')
     for cfgs, ops, kinds, thinks in envs:
         cfg = tlc.write_cfg(wd / "gen.cfg", constants=map_consts(cfgs, ops, kinds, thinks, dev=known))
-        res = tlc.run(SPEC / "StorageMC.tla", cfg, label="C14_gen", extra=["-dump", str(wd / "states")],
+        res = tlc.run(SPEC / "StorageMC.tla", cfg, label=lab("gen"), extra=["-dump", str(wd / "states")],
                       timeout=1800)
         chk.add_tlc(f"program enumeration [{cfgs} {ops} {kinds} {thinks}]", res, count=False,
                     note="terminal states enumerate programs (model with the code's known deviations)")
@@ -210,20 +212,21 @@ def map_programs(chk, tier, known):
 
 
 def txn_behaviours(chk, tier, known):
-    wd = tlc.workdir("C14_tgen")
+    wd = tlc.workdir(lab("tgen"))
     out = []
-    envs = [(2, 2, "ser"), (2, 2, "si")] if tier == "quick" else [(2, 3, "ser"), (2, 3, "si"), (3, 1, "ser"), (2, 2, "rc")]
-    for ntx, mo, level in envs:
-        cfg = tlc.write_cfg(wd / "gen.cfg", constants=txn_consts(ntx, mo, level, known), view="View")
-        res = tlc.run(SPEC / "Txn.tla", cfg, label="C14_tgen", extra=["-dump", str(wd / "states")], timeout=1800)
-        chk.add_tlc(f"Txn behaviour enumeration NTx={ntx} MaxOpsTx={mo} {level}", res, count=False,
+    envs = [(2, 2, '{"ser", "si"}')] if tier == "quick" else [(2, 3, '{"ser", "si"}'), (3, 1, '{"ser", "si"}'),
+                                                              (2, 2, '{"rc"}')]
+    for ntx, mo, levels in envs:
+        cfg = tlc.write_cfg(wd / "gen.cfg", constants=txn_consts(ntx, mo, levels, known), view="View")
+        res = tlc.run(SPEC / "Txn.tla", cfg, label=lab("tgen"), extra=["-dump", str(wd / "states")], timeout=1800)
+        chk.add_tlc(f"Txn behaviour enumeration NTx={ntx} MaxOpsTx={mo} {levels}", res, count=False,
                     note="one behaviour (event log) per distinct finished state")
         n = 0
         for st in _dump_states(wd / "states.dump", lambda t: '"active"' not in t and '"none"' not in t):
-            out.append(dict(level=level, ntx=ntx, nk=2, ev=[list(e) for e in st["ev"]],
+            out.append(dict(level=st["S"]["level"], ntx=ntx, nk=2, ev=[list(e) for e in st["ev"]],
                             store=as_map(st["S"]["store"])))
             n += 1
-        chk.extra.setdefault("txn_behaviours", {})[f"{ntx}x{mo} {level}"] = n
+        chk.extra.setdefault("txn_behaviours", {})[f"{ntx}x{mo} {levels}"] = n
         (wd / "states.dump").unlink(missing_ok=True)
     return out
 
@@ -339,7 +342,7 @@ def validate(module, traces, label, chunk=2000, timeout=2400):
         consts = {"Cfgs": "{}", "MaxOps": "<- NoOps", "Kinds": "<- NoOps", "NK": 0, "Thinks": "<- NoOps",
                   "Prefixes": "{}"}
     else:
-        consts = {"Dev": "{}", "NTx": 0, "TKeys": "{}", "MaxOpsTx": 0, "Level": '"ser"'}
+        consts = {"Dev": "{}", "NTx": 0, "TKeys": "{}", "MaxOpsTx": 0, "Levels": "{}"}
     cfg = tlc.write_cfg(wd / "trace.cfg", spec="TSpec", constants=consts)
     verdicts, results = {}, []
     for k in range(0, len(traces), chunk):
@@ -362,10 +365,10 @@ def attribute(module, failing, known, label, setdev):
     reproduces: the smallest subset(s) of `known` whose model still reproduces it.  {tid: tuple(devs)}"""
     out, todo = {}, dict(failing)
     results = []
-    for size in range(1, len(known) + 1):
-        if not todo:
+    for sizes in ((1, 2), tuple(range(3, len(known) + 1))):
+        subsets = [sub for size in sizes if size <= len(known) for sub in itertools.combinations(known, size)]
+        if not todo or not subsets:
             break
-        subsets = list(itertools.combinations(known, size))
         batch, back = [], {}
         for tid, tr in todo.items():
             for sub in subsets:
@@ -374,9 +377,9 @@ def attribute(module, failing, known, label, setdev):
                 back[cid] = (tid, sub)
         v, r = validate(module, batch, label)
         results += r
-        for cid, (verdict, _pos, match) in v.items():
+        for cid in sorted(v):                      # subsets are listed smallest first
             tid, sub = back[cid]
-            if match == 1 and tid not in out:
+            if v[cid][2] == 1 and tid not in out:
                 out[tid] = sub
         for tid in out:
             todo.pop(tid, None)
@@ -450,11 +453,9 @@ def run(tier, seed, replay=None):
     chk.exhaustive = len(chosen) == len(progs)
     matched = 0
     for i, p in enumerate(chosen):
-        nk = 2
-        names, fps = L.universe(nk, want_fp=bool(p["cfg"]["fp"]))
-        if sorted(p["cfg"]["fp"]) != sorted(fps) and p["cfg"]["fp"]:
-            # the model envelope assumes a particular false-positive relation; run it only if the real bloom
-            # filter of some key universe has exactly that relation
+        fps = p["cfg"]["fp"]
+        names = L.universe_with(2, fps) if fps else L.universe(2)[0]
+        if names is None:          # no real key universe has the false-positive relation of this envelope
             continue
         w, final = execute(dict(p["cfg"], fp=fps), p["scripts"], names, "model", yf=bool(i % 2))
         chk.replays += 1
@@ -482,14 +483,14 @@ def run(tier, seed, replay=None):
         cfg["fp"] = fps
         execute(cfg, random_scripts(rng, cfg, nk), names, "random", yf=bool(i % 2))
 
-    verdicts, results = validate("StorageTrace.tla", traces, "C14_trace")
+    verdicts, results = validate("StorageTrace.tla", traces, lab("trace"))
     for r in results:
         chk.add_tlc("StorageTrace batch (contract on observed history + model re-run)", r)
 
     def describe_map(tr):
         c = tr["cfg"]
         return c["engine"] + (":" + c["strat"] if c["engine"] == "lsm" else "")
-    bad, explained = judge(chk, "StorageTrace.tla", traces, meta, verdicts, known_map, "C14_trace", _set_map_dev,
+    bad, explained = judge(chk, "StorageTrace.tla", traces, meta, verdicts, known_map, lab("trace"), _set_map_dev,
                            describe_map)
     chk.extra["map_traces"] = len(traces)
     chk.extra["map_contract_failures_observed"] = sum(1 for v in bad.values() if v[0].startswith("PROP:"))
@@ -528,10 +529,10 @@ def run(tier, seed, replay=None):
         level = ("ser", "si", "ser", "si", "rc")[i % 5]
         nk = rng.choice((1, 2, 2, 3))
         texec(level, random_txn_plans(rng, nk), nk, "random")
-    tverdicts, tresults = validate("TxnTrace.tla", ttraces, "C14_ttrace")
+    tverdicts, tresults = validate("TxnTrace.tla", ttraces, lab("ttrace"))
     for r in tresults:
         chk.add_tlc("TxnTrace batch (contract on observed events + model re-run)", r)
-    tbad, texpl = judge(chk, "TxnTrace.tla", ttraces, tmeta, tverdicts, known_txn, "C14_ttrace", _set_txn_dev,
+    tbad, texpl = judge(chk, "TxnTrace.tla", ttraces, tmeta, tverdicts, known_txn, lab("ttrace"), _set_txn_dev,
                         lambda tr: "txn:" + tr["level"])
     chk.extra["txn_traces"] = len(ttraces)
     chk.extra["txn_contract_failures_observed"] = sum(1 for v in tbad.values() if v[0].startswith("PROP:"))
@@ -570,13 +571,13 @@ def run_replay(chk, path, known_map, known_txn):
     if rp.get("kind", "").endswith("ttrace") or rp.get("kind") == "txn":
         w, err = T.run_plan(tr["level"], rp["meta"]["plans"], tr["nk"])
         new = T.to_trace(1, tr["level"], tr["nk"], tr["ntx"], w, known_txn)
-        module, label, setdev, known = "TxnTrace.tla", "C14_replay_t", _set_txn_dev, known_txn
+        module, label, setdev, known = "TxnTrace.tla", lab("replay_t"), _set_txn_dev, known_txn
         describe = lambda t: "txn:" + t["level"]
     else:
         cfg = {k: v for k, v in tr["cfg"].items() if k != "dev"}
         w, err, final = L.run_program(cfg, tr["script"], rp["meta"]["names"], yield_from=rp["meta"]["yield_from"])
         new = L.to_trace(1, dict(cfg, dev=list(known_map)), tr["script"], w, final)
-        module, label, setdev, known = "StorageTrace.tla", "C14_replay", _set_map_dev, known_map
+        module, label, setdev, known = "StorageTrace.tla", lab("replay"), _set_map_dev, known_map
         describe = lambda t: t["cfg"]["engine"] + (":" + t["cfg"]["strat"] if t["cfg"]["engine"] == "lsm" else "")
     if err:
         chk.violation(f"exception:{err.split(':')[0]}", f"real engine raised {err}", rp)
